@@ -187,6 +187,9 @@ type ClientOp struct {
 	Abort    *Abort        `json:"abort,omitempty"`
 	Deadline time.Duration `json:"deadline"` // relative to At; liveness bound
 	Expect   string        `json:"expect,omitempty"`
+	// ReadPause: once the client has read PauseAfter body bytes it stops reading for PauseFor (once)
+	PauseAfter int           `json:"pause_after,omitempty"`
+	PauseFor   time.Duration `json:"pause_for,omitempty"`
 }
 
 type BodySpec struct {
